@@ -1032,14 +1032,52 @@ def collect(res, results, jobs, facet_name=None):
             res.distinct.add((r['rel'], json.dumps(r['vspec'], sort_keys=True), name))
 
 
+# fixed corpus on top of the random variants: files with a history (a defect once found there)
+FIXED_VARIANTS = [
+    # TOUGH2/11 prints a 'primary' table only at its last result time; generation rows are constant in time in the
+    # shipped file, so only a perturbed copy shows whether the table after it is re-read (fixed in /repo 159f0ee)
+    ('TOUGH2/11/case11.listing', {'kind': 'perturb', 'seed': 11, 'frac': 0.3, 'modes': ['digits', 'neg', 'zero'], 'first_rows': False}),
+]
+SAFE_MODES = ['digits', 'zero']      # same layout as the original: the reader cannot refuse these
+
+
 def run(ctx):
     res = Result()
     res.rule = ('cases = (shipped listing file | value-perturbed variant) x result index (first/middle/last/random in quick, all in thorough) '
                 'x exposed table; non-trivial = distinct (file, variant, table) whose rows were compared cell by cell with the printed text')
     rng = ctx.rng('c05')
     jobs = build_jobs(ctx, rng, ctx.n(2, 12), ctx.n(3, 'all'), ctx.n('some', 'all'), dump=ctx.model_ok)
+    fam_of = dict(corpus())
+    for rel, vs in FIXED_VARIANTS:
+        if rel in fam_of:
+            jobs.append(dict(rel=rel, family=fam_of[rel], vspec=vs, tmp=str(ctx.tmp), indices='all', skips=[['connection'], ['element', 'generation']],
+                             seed=1, dump=ctx.model_ok, addr_samples=12))
     results = run_jobs('job_c05', jobs, timeout=ctx.n(120, 600))
+    # floor of accepted variants per file: a variant the reader refuses at open says nothing about the tables
+    floor = ctx.n(1, 4)
+    accepted = Counter()
+    for j, r in zip(jobs, results):
+        if j['vspec'].get('kind') != 'orig' and not isinstance(r, Timeout) and not r.get('rejected'):
+            accepted[j['rel']] += 1
+    extra = []
+    for rel, family in corpus():
+        for k in range(max(0, floor - accepted[rel])):
+            vs = {'kind': 'perturb', 'seed': rng.randrange(1 << 30), 'frac': rng.choice([0.2, 0.6]), 'modes': SAFE_MODES, 'first_rows': True}
+            extra.append(dict(rel=rel, family=family, vspec=vs, tmp=str(ctx.tmp), indices=ctx.n('some', 'all'), skips=[], seed=rng.randrange(1 << 30),
+                              dump=ctx.model_ok, addr_samples=12))
+    if extra:
+        results += run_jobs('job_c05', extra, timeout=ctx.n(120, 600))
+        jobs += extra
     collect(res, results, jobs)
+    nvar = sum(1 for j in jobs if j['vspec'].get('kind') != 'orig')
+    nrej = res.stats.get('variant-rejected-by-reader', 0)
+    res.count('variants-generated', nvar)
+    res.count('variants-accepted', nvar - nrej)
+    acc2 = Counter()
+    for j, r in zip(jobs, results):
+        if j['vspec'].get('kind') != 'orig' and not isinstance(r, Timeout) and not r.get('rejected'):
+            acc2[j['rel']] += 1
+    res.count('min-accepted-variants-per-file', min([acc2[rel] for rel, _ in corpus()] or [0]))
     res.facet('oracle_tables')['cases'] = res.stats.get('tables-checked', 0)
     if ctx.model_ok:
         correspond(ctx, res, jobs, results)
